@@ -18,7 +18,9 @@ index). Y3 in provide_liquidity the stableswap mint helper receives (deposits[0]
 share) in matching index order and the first deposit calls compute_d on (deposits[0], deposits[1]). Accuracy of the
 invariant, monotonicity of proceeds, rounding dust and the mint bound are NOT decided. Y4: the mint helper computes
 compute_d(pool0, pool1) and compute_d(pool0+deposit0, pool1+deposit1) (same index) and mints supply*(d1-d0)/d0 (operator
-tree, spelling normalised). Y5: compute_d's operator trees are invariant under exchanging its two reserves.
+tree, spelling normalised). Y5: compute_d's operator trees are invariant under exchanging its two reserves; its Newton step is
+(Ann*S + Dp*n)*d / ((Ann-1)*d + (n+1)*Dp) with Ann = amp*n and is called with (amp, d, d_prod, sum, 2). Y6: no ceil-family rounding
+in the pair's deposit, withdrawal and swap computations.
 """
 ASSUMPTIONS = ["only operand wiring is decided; Newton convergence / invariant accuracy need a numerical technique"]
 
@@ -102,6 +104,8 @@ def run(ctx):
                         if c and mname(c[1]).endswith("fee::Fee::compute"):
                             subs |= {x.proj[0] for x in v.origins_of_operand(c[1]["args"][0], at=v.at_term(c[0])) if x.kind == "param" and len(x.proj) == 1}
             ctx.ob("C03-Y1", "%s|all-fees-subtracted" % CS, subs == {"swap_fee", "protocol_fee", "burn_fee"}, "fees subtracted from the gross proceeds: %s" % sorted(subs), v.where())
+            from .C02 import check_result_fields
+            check_result_fields(ctx, v, arm, "C03-Y1", "stableswap")
     # Y2: direction + decimals tables (shared with C14)
     check_pair_directions(ctx, model, rule="C03-Y2")
     check_deposit_helpers(ctx, model)
@@ -180,3 +184,18 @@ def check_deposit_helpers(ctx, model):
     w = ctx.view(CD, "C03-Y5")
     if w is not None:
         check_symmetric(ctx, "C03-Y5", w, (2, 3), CD)
+    from .stablemath import check_newton_step
+    nd = ctx.view("terraswap_pair::helpers::compute_next_d", "C03-Y5")
+    if nd is not None:
+        check_newton_step(ctx, "C03-Y5", nd, "param(1)", "param(2)", "param(3)", "param(4)", "param(5)", "terraswap_pair::helpers::compute_next_d")
+        # ... and compute_d hands it (amp, d, d_prod, sum_x, n_coins = 2)
+        for b, t in w.calls_to(r"^terraswap_pair::helpers::compute_next_d$"):
+            from ..dataflow import const_of
+            a0 = w.origins_of_operand(t["args"][0], at=w.at_term(b))
+            k = const_of(w, t["args"][4], w.at_term(b))
+            ctx.ob("C03-Y5", "%s|newton-step-arguments" % CD, bool(a0) and all(o.kind == "param" and o.a == 1 for o in a0) and k == 2,
+                   "compute_next_d called with amp from %s and n_coins = %s (must be the amp parameter and 2)" % (sorted(map(repr, a0)), k), w.where(b))
+    # no rounding in the user's favour on the deposit / withdrawal / swap paths of the pair (shared with C01-V5)
+    from .poolvalue import check_v5_rounding
+    check_v5_rounding(ctx, model, ["terraswap_pair::commands::provide_liquidity", "terraswap_pair::commands::withdraw_liquidity",
+                                   "terraswap_pair::helpers::compute_swap", MINT, CD, "terraswap_pair::helpers::calculate_stableswap_y"], "C03-Y6")
